@@ -210,6 +210,32 @@ def sanitizeAux : Nat → Bytes → Bytes
 
 def sanitize (s : Bytes) : Bytes := sanitizeAux s.length s
 
+/-! ### the object level: what `json.Marshal` writes for `PostData` / `pdBinary` / `contentJSON`
+
+Field order is declaration order; `omitempty` members (`value`, `fileName`, `contentType` of a
+parameter, `text` and `encoding` of content) are left out when empty; a `[]byte` member is written
+as the base64 string (no escaping needed: the base64 alphabet is HTML-safe). The members of `PdJson`
+/ `ContentJson` are string tokens already. -/
+
+def emptyTok : Bytes := [0x22, 0x22]
+
+def paramObj (p : ParamJson) : Bytes :=
+  strBytes "{\"name\":" ++ p.name
+  ++ (if p.value == emptyTok then [] else strBytes ",\"value\":" ++ p.value)
+  ++ (if p.fileName == emptyTok then [] else strBytes ",\"fileName\":" ++ p.fileName)
+  ++ (if p.contentType == emptyTok then [] else strBytes ",\"contentType\":" ++ p.contentType)
+  ++ [0x7D]
+
+def pdObj (j : PdJson) : Bytes :=
+  strBytes "{\"mimeType\":" ++ j.mime ++ strBytes ",\"params\":[" ++ Go.join (j.params.map paramObj) [0x2C]
+  ++ strBytes "],\"text\":" ++ j.text
+  ++ (match j.encoding with | some e => strBytes ",\"encoding\":" ++ e | none => []) ++ [0x7D]
+
+def contentObj (j : ContentJson) : Bytes :=
+  strBytes "{\"size\":" ++ Go.natDigits j.size ++ strBytes ",\"mimeType\":" ++ j.mime
+  ++ (if j.text == emptyTok then [] else strBytes ",\"text\":" ++ j.text)
+  ++ (match j.encoding with | some e => strBytes ",\"encoding\":" ++ e | none => []) ++ [0x7D]
+
 /-- What a JSON round trip makes of the string fields of post data (the text has a base64 form). -/
 def sanitizeParam (p : Param) : Param :=
   { name := sanitize p.name, value := sanitize p.value, fileName := sanitize p.fileName,
